@@ -119,6 +119,10 @@ func C04Inputs(seeds [][]byte, cbor bool) []C04Case {
 // FuzzC04 registers seeds and the in-process fuzz body for a decoder target: panic, or an
 // allocation beyond the budget, fails the input. (Hangs are bounded by go's own fuzz worker
 // timeout; process death is reported by the fuzzing engine as a crasher.)
+// FuzzExclude, if set, tells for an input that it belongs to the class of a finding listed in
+// known_findings.json (it is only consulted by harnesses that checked VERIF_KNOWN).
+var FuzzExclude func(in []byte) bool
+
 func FuzzC04(f *testing.F, name string, tg Target, c0 uint64, seeds [][]byte) {
 	for _, s := range seeds {
 		f.Add(s)
@@ -126,6 +130,9 @@ func FuzzC04(f *testing.F, name string, tg Target, c0 uint64, seeds [][]byte) {
 	f.Fuzz(func(t *testing.T, in []byte) {
 		if len(in) > 65536 {
 			return
+		}
+		if FuzzExclude != nil && FuzzExclude(in) {
+			return // an input of a recorded finding's class: excluded so that the campaign goes on behind it
 		}
 		var m0, m1 runtimeMemStats
 		readMem(&m0)
